@@ -5,6 +5,8 @@ import (
 	"go/types"
 	"math/big"
 	"strconv"
+
+	"golang.org/x/tools/go/ssa"
 )
 
 func mustRat(s string) *big.Rat {
@@ -178,4 +180,40 @@ func (ex *Exec) fmtArg(a IfaceV, verb byte, flags string) (StringV, *PanicV) {
 		}
 	}
 	return ex.opaqueString("fmtarg"), nil
+}
+
+func registerStrconv(e *Engine) {
+	e.reg("strconv.FormatInt", func(ex *Exec, fn *ssa.Function, args []Value) (Value, *PanicV) {
+		b := argTerm(ex, args[1])
+		if !b.isConst || b.cv != 10 {
+			ex.unsupported("strconv.FormatInt with base != 10")
+		}
+		return ex.decimalString(argTerm(ex, args[0]), true), nil
+	})
+	e.reg("strconv.Itoa", func(ex *Exec, fn *ssa.Function, args []Value) (Value, *PanicV) {
+		return ex.decimalString(argTerm(ex, args[0]), true), nil
+	})
+	e.reg("strconv.Atoi", func(ex *Exec, fn *ssa.Function, args []Value) (Value, *PanicV) {
+		c := ex.ctx
+		s := args[0].(StringV)
+		if str, ok := ex.concreteString(s); ok {
+			v, err := strconv.Atoi(str)
+			if err != nil {
+				return TupleV{c64(c, 0), ex.errorString("strconv.Atoi: parsing " + strconv.Quote(str) + ": invalid syntax")}, nil
+			}
+			return TupleV{c64(c, uint64(int64(v))), nilErr()}, nil
+		}
+		if m, ok := ex.st["decnodes"].(map[*BNode]*Term); ok {
+			if x, ok := m[s.node]; ok {
+				return TupleV{x, nilErr()}, nil
+			}
+		}
+		// arbitrary string: either a parse error or some integer (uninterpreted)
+		okT := c.Fresh("atoi_ok", BoolSort)
+		if ex.branch(okT) {
+			v := c.Fresh("atoi", BV(64))
+			return TupleV{v, nilErr()}, nil
+		}
+		return TupleV{c64(c, 0), ex.errorString("strconv.Atoi: invalid syntax")}, nil
+	})
 }
